@@ -214,6 +214,9 @@ func Dial(from string) *Client {
 
 // Send writes b in segments of at most seg bytes (seg <= 0: one write).
 func (c *Client) Send(b []byte, seg int) error {
+	if c.C == nil {
+		return net.ErrClosed
+	}
 	if seg <= 0 {
 		seg = len(b)
 	}
@@ -233,6 +236,9 @@ func (c *Client) Send(b []byte, seg int) error {
 
 // ReadAll collects everything the proxy sends until EOF / reset / error.
 func (c *Client) ReadAll() {
+	if c.C == nil {
+		return
+	}
 	buf := make([]byte, 32*1024)
 	for {
 		n, err := c.C.Read(buf)
@@ -253,6 +259,9 @@ func (c *Client) ReadAll() {
 
 // ReadUntil reads until at least n wire bytes have been collected or the stream ends.
 func (c *Client) ReadUntil(n int) {
+	if c.C == nil {
+		return
+	}
 	buf := make([]byte, 32*1024)
 	for len(c.Got) < n {
 		m, err := c.C.Read(buf)
@@ -272,3 +281,22 @@ func (c *Client) ReadUntil(n int) {
 }
 
 var _ net.Conn = (*vnet.TCPConn)(nil)
+
+// nil-safe wrappers: a dial may legitimately be refused (listener already closed)
+func (c *Client) CloseWrite() {
+	if c.C != nil {
+		c.C.CloseWrite()
+	}
+}
+func (c *Client) Close() {
+	if c.C != nil {
+		c.C.Close()
+	}
+}
+func (c *Client) Sent() int64 {
+	if c.C == nil {
+		return 0
+	}
+	return c.C.BytesWritten
+}
+func (c *Client) Refused() bool { return c.C == nil }
